@@ -190,7 +190,7 @@ def _state_obligation(run, contract, prefix, name, hidden, only, skip):
     one, no module-level variable is written.  With it, the per-call contracts extend to every history of calls by induction; without it
     a later call may answer differently because of an earlier one (memo tables, 'already validated' flags, remembered arguments)."""
     clause = "keeps_no_state_between_calls"
-    if _STATEFUL.search(name) or getattr(contract, "STATEFUL", False) or (only is not None and clause not in only) or clause in skip:
+    if (_STATEFUL.search(name) and not getattr(contract, "STATE_CHECK", False)) or getattr(contract, "STATEFUL", False) or (only is not None and clause not in only) or clause in skip:
         return
     hidden = [h for h in hidden if h not in _DOCUMENTED_WRITES and not (_BUILDER.search(name) and h in _BUILDER_WRITES)]
     with run.obligation("%s#%s" % (prefix, clause), "pyvc/frame", [name]) as ob:
